@@ -39,6 +39,10 @@ def plan(tier, seed):
 
 
 def classify(name, w):
+    if name in ("rerun.second_run_selects_exactly", "rerun.second_run_executes_exactly", "rerun.second_run_skips_all_others") \
+            and isinstance(w, dict) and w.get("rerun_file") not in (None, "rerun.txt") \
+            and ("No such file" in str(w.get("error")) or "FileNotFoundError" in str(w.get("error")) or "InvalidFilenameError" in str(w.get("error"))):
+        return "rerun-file-in-subdirectory-cannot-be-fed-back"
     return name
 
 
@@ -62,7 +66,10 @@ def one_history(lab, mon, rng, case, stale, sample=False):
             with open(os.path.join(root, "features", f["file"]), "w", encoding="utf-8") as fh:
                 fh.write(text)
         os.chdir(root)
-        if stale:
+        rerun_file = case.get("rerun_file") or "rerun.txt"
+        if os.path.dirname(rerun_file):
+            os.makedirs(os.path.dirname(rerun_file))
+        if stale and rerun_file == "rerun.txt":
             with open("rerun.txt", "w") as fh:
                 fh.write("# -- RERUN: stale\nfeatures/f0.feature:3\n")
         files = [os.path.join("features", f["file"]) for f in case["program"]["features"]]
@@ -77,7 +84,7 @@ def one_history(lab, mon, rng, case, stale, sample=False):
         mon.seen("feature_order", order)
 
         def formatters(config, st):
-            return [RerunFormatter(StreamOpener(filename="rerun.txt"), config)]
+            return [RerunFormatter(StreamOpener(filename=rerun_file), config)]
         entered1 = []
 
         def rec1(state, context, name, elem, tag):
@@ -108,7 +115,7 @@ def one_history(lab, mon, rng, case, stale, sample=False):
                 status_of[s.name] = st
                 if st == "failed" or st in RB.ERROR_CLASS:
                     want.append((str(s.location), s.name, st))
-        lines = read_rerun("rerun.txt")
+        lines = read_rerun(rerun_file)
         n_all = len(status_of)
         mon.case((RB.strip_case(case), stale), bool(want) and len(want) < n_all)
         got = lines or []
@@ -124,10 +131,10 @@ def one_history(lab, mon, rng, case, stale, sample=False):
             return
         # ---- run 2: feed the file back ------------------------------------------------------------
         try:
-            locations = collect_feature_locations(["@rerun.txt"])
+            locations = collect_feature_locations(["@" + rerun_file])
             feats2 = parse_features(locations)
         except Exception as ex:
-            mon.check("rerun.second_run_selects_exactly", False, lambda: W(error=repr(ex), file=lines))
+            mon.check("rerun.second_run_selects_exactly", False, lambda: W(error=repr(ex), file=lines, rerun_file=rerun_file))
             return
         # scenarios are identified by their location (names may repeat); the second run is judged against what
         # the FILE lists (whether the file is right is checked above)
@@ -246,6 +253,10 @@ def run(spec, mon):
                 case = dict(case, hook_fault={"k": rng.choice(ks), "exc": rng.choice(["Exception", "AssertionError"])})
         if i % 5 == 3:
             case = dict(case, fail_fast=rng.choice(["feature", "rule"]))
+        if i % 10 == 7:
+            # "-f rerun -o reports/rerun.txt": the report in a sub-directory, fed back as @reports/rerun.txt
+            case = dict(case, rerun_file="reports/rerun.txt")
+            mon.seen("rerun_file_place", "subdirectory")
         if i % 4 == 2:
             # a feature file whose NAME contains a '#' (issue#12.feature): in a list file only a line that STARTS with '#' is a comment
             victim = rng.choice(case["program"]["features"])
